@@ -45,7 +45,7 @@ func CodecByCode(code uint64) Codec {
 	return Codec{}
 }
 
-var words = []string{"a", "b", "key", "name", "x", "y", "value", "héllo", "日本", "with space", "q\"uote", "back\\slash", "tab\t", "nl\n", "ü", "0", "10", "9", "-", "aa", "ab", "ba", "aaa", "long-key-with-some-length", "😀"}
+var words = []string{"a", "b", "key", "name", "x", "y", "value", "héllo", "日本", "with space", "q\"uote", "back\\slash", "tab\t", "nl\n", "ü", "0", "10", "9", "-", "aa", "ab", "ba", "aaa", "long-key-with-some-length", "😀", "bytes", "!"}
 
 func str(t *sim.Tape, c Codec, key bool) string {
 	switch k := t.Choice(12, "str.class"); {
@@ -74,9 +74,6 @@ func str(t *sim.Tape, c Codec, key bool) string {
 		}
 		return string(b)
 	case k == 10:
-		if c.JSON && key {
-			return "slash-not-used"
-		}
 		return "/"
 	default:
 		return words[t.Choice(len(words), "str.word")] + string(rune('a'+t.Choice(26, "str.sfx")))
@@ -159,10 +156,12 @@ func Value(t *sim.Tape, c Codec, links []string, budget *int, depth int) *model.
 			}
 			seen[k] = true
 			x := Value(t, c, links, budget, depth+1)
-			if c.JSON && k == "/" {
-				k = "slash"
-			}
 			v.Put(k, x)
+		}
+		// dag-json reserves the map whose ONLY key is "/" (link and bytes forms); a map that has
+		// "/" among several keys is ordinary data and stays in the domain
+		if c.JSON && len(v.Keys) == 1 && v.Keys[0] == "/" {
+			v.Keys[0] = "slash"
 		}
 		return v
 	}
